@@ -5,9 +5,12 @@ package main
 import (
 	"bytes"
 	"errors"
+	"fmt"
 	"io"
 	"math/rand"
+	"runtime"
 	"strings"
+	"sync"
 
 	"github.com/eclipse/paho.mqtt.golang/packets"
 	"github.com/emitter-io/emitter/internal/network/mqtt"
@@ -405,6 +408,69 @@ func kindName(k int) string {
 		"suback", "unsubscribe", "unsuback", "pingreq", "pingresp", "disconnect"}[k]
 }
 
+// yieldWriter hands the processor to other goroutines before it looks at the bytes it was given -
+// like a socket write that parks; what it then copies is what a client would receive.
+type yieldWriter struct {
+	mu  sync.Mutex
+	got [][]byte
+}
+
+func (w *yieldWriter) Write(p []byte) (int, error) {
+	runtime.Gosched()
+	c := append([]byte{}, p...)
+	w.mu.Lock()
+	w.got = append(w.got, c)
+	w.mu.Unlock()
+	return len(p), nil
+}
+
+// encodeStress: many goroutines encode different PUBLISH packets at the same time; every packet that
+// reaches the writer must decode to one of the packets sent, each exactly once.
+func encodeStress() (total, bad int) {
+	old := runtime.GOMAXPROCS(2)
+	defer runtime.GOMAXPROCS(old)
+	const senders, per = 24, 200
+	w := &yieldWriter{}
+	var wg sync.WaitGroup
+	for g := 0; g < senders; g++ {
+		wg.Add(1)
+		go func(g int) {
+			defer wg.Done()
+			for k := 0; k < per; k++ {
+				pl := bytes.Repeat([]byte{byte(g)}, 3+(k%40))
+				(&mqtt.Publish{Header: mqtt.Header{QOS: 1}, MessageID: uint16(k), Topic: []byte(fmt.Sprintf("t/%d/", g)), Payload: pl}).EncodeTo(w)
+			}
+		}(g)
+	}
+	wg.Wait()
+	seen := map[string]int{}
+	for _, b := range w.got {
+		total++
+		m, err := mqtt.DecodePacket(bytes.NewReader(b), mqtt.MaxMessageSize)
+		pb, ok := m.(*mqtt.Publish)
+		if err != nil || !ok {
+			bad++
+			continue
+		}
+		var g int
+		if _, e := fmt.Sscanf(string(pb.Topic), "t/%d/", &g); e != nil || g < 0 || g >= senders || int(pb.MessageID) >= per ||
+			!bytes.Equal(pb.Payload, bytes.Repeat([]byte{byte(g)}, 3+(int(pb.MessageID)%40))) {
+			bad++
+			continue
+		}
+		seen[fmt.Sprintf("%d/%d", g, pb.MessageID)]++
+	}
+	for _, n := range seen {
+		if n != 1 {
+			bad++
+		}
+	}
+	if len(seen) != senders*per {
+		bad += senders*per - len(seen)
+	}
+	return
+}
+
 func main() {
 	cfg = vlib.ParseFlags()
 	rng = cfg.Rng
@@ -513,5 +579,12 @@ func main() {
 		sh.Add(vlib.App("CPaho", packetTerm(m), vlib.Bytes(pb), implDecode(pb, mqtt.MaxMessageSize), vlib.Bool(same)),
 			map[string]interface{}{"op": "paho", "packet": m.String(), "value": packetTerm(m)}, "paho/"+m.String(), true)
 	}
-	sh.Finish("packet values: 14 types x flags x QoS (incl. will QoS) x lengths at 0/127/128/16383/16384/65530..65537; byte strings: truncations at every offset, 1-3 byte mutations, inflated length fields, random; non-trivial = encodes to more than 2 bytes / input longer than 1 byte; distinct by Coq term")
+	// concurrent encoders (the encode buffers come from a pool): nothing another encoder does may change
+	// the bytes a writer was handed
+	for i := 0; i < 2*cfg.Mult; i++ {
+		total, bad := encodeStress()
+		sh.Add(vlib.App("CEncStress", vlib.N(uint64(total)), vlib.N(uint64(bad))),
+			map[string]interface{}{"op": "concurrent PUBLISH encoders", "packets": total, "damaged_lost_or_duplicated": bad}, "enc/concurrent", true)
+	}
+	sh.Finish("packet values: 14 types x flags x QoS (incl. will QoS) x lengths at 0/127/128/16383/16384/65530..65537; byte strings: truncations at every offset, 1-3 byte mutations, inflated length fields, random; 24 goroutines x 200 PUBLISH packets encoded concurrently into a writer that yields before it copies; non-trivial = encodes to more than 2 bytes / input longer than 1 byte; distinct by Coq term")
 }
